@@ -127,7 +127,7 @@ def c10(tier):
         if c["pos"] in ("arrsize", "aligned", "asmsize") and c["bad"] == "" and not (1 <= c["v"] <= 200):
             skipped += 1      # these positions need a small positive value to be meaningful
             continue
-        if c["pos"] in ("stmt8", "stmt16") and c["bad"] == "" and c["big"] > 32767:
+        if c["pos"] in ("stmt8", "stmt16") and (c["bad"] == "overflow" or (c["bad"] == "" and c["big"] > 32767)):
             skipped += 1      # intermediate values beyond 16 bits inside a statement: not decided
             continue
         usable.append(c)
@@ -152,7 +152,7 @@ def c10(tier):
         o = ob[0] if ob else {"status": "missing"}
         st = o.get("status")
         fits16 = c["big"] <= 65535 and c["v"] >= -32768
-        must_err = c["bad"] == "div0" or c["big"] >= 2 ** 31 - 1
+        must_err = c["bad"] in ("div0", "overflow") or c["big"] >= 2 ** 31 - 1
         problem = None
         if st not in ("ok", "err"):
             problem = "compiler %s (%s)" % (st, o.get("panic", "")[:80])
@@ -428,7 +428,38 @@ MENU = ["if", "else", "while", "for", "do", "switch", "case", "default", "break"
         "++", "--", "?", ":", ",", ";", "(", ")", "[", "]", "{", "}", "0", "1", "255", "256", "65535", "65536", "4294967296", "99999999999999999999", "0x", "0xFFFFFFFFF", "08", "1.5",
         "'a'", "''", "'ab'", "'", '"', '"abc"', '"unterminated', "\\", "#", "#if", "#if 1", "#else", "#endif", "#elif 1", "#define A A\nA", "#define F(x) F(x)\nF(1)", "#include", '#include "nofile.h"', "#undef", "#error x", "#ifdef",
         "undeclared_name", "main", "f()", "main()", "(" * 300, "((((((((((", "/*", "*/", "//", "@", "@0@", "$", "`", "\x00", "\xff", "\t", "\r", "é", "=== ASSEMBLER BEGIN ==="]
-OWN_SEEDS = [
+# variants of the inputs behind each repaired crash or hang (one error path each; a repair that covers one spelling only shows here)
+REPAIRED_PATHS = [
+    # integer literals beyond 32 bits, in every place a literal may stand
+    "void main() { X = 4294967296; }", "void main() { X = 0xFFFFFFFFF; }", "void main() { X = 077777777777777; }", "void main() { csleep(99999999999); }",
+    "unsigned char a; void main() { switch (a) { case 4294967296: a = 1; } }", "char t[4294967296]; void main() { }", "const char t[2] = {4294967296, 1}; void main() { }",
+    "char *p; void main() { p = 0; X = p[99999999999]; }", "const char *q = t + 99999999999; const char t[2] = {1, 2}; void main() { }",
+    # the value of a void function, into every kind of destination
+    "unsigned char a; void w(char x) { a = x; } void main() { X = w(3); }", "unsigned char a; void w(char x) { a = x; } void main() { Y = w(3); }",
+    "unsigned char a; void w(char x) { a = x; } void main() { a = w(3); }", "unsigned char a; short s; void w() { a = 1; } void main() { s = w(); }",
+    "unsigned char a, t[4]; void w() { a = 1; } void main() { t[X] = w(); t[1] = w(); }", "unsigned char a; char *p; void w() { a = 1; } void main() { *p = w(); p[Y] = w(); }",
+    "unsigned char a; void w() { a = 1; } char g() { return w(); } void main() { a = g(); }", "unsigned char a; void w() { a = 1; } void main() { a = main(); }",
+    "unsigned char a; void w() { a = 1; } void main() { a += w(); a = w() + 1; if (w()) a = 2; }",
+    # the preprocessor's placeholder for string literals written in the source
+    "void main() { X = @0@; }", "char *s; void main() { s = \"x\"; s = @1@; }", "char *s; void main() { s = \"x\"; s = @0@; }", "const char s[] = @-1@; void main() { }",
+    "const char s[] = @99999999999999999999@; void main() { }", "const char *t[2] = {\"a\", @1@}; void main() { }", "void main() { asm(@0@); }", "void main() { asm(\"nop\"); asm(@1@); }",
+    # malformed parameter lists of function-like macros
+    "#define pp(x, ) foo\nchar i; void main() { }", "#define pp(x,x) x\nchar i; void main() { i = pp(1,2); }", "#define pp(x, x) x\nchar i; void main() { i = pp(1,2); }",
+    "#define pp(x ,x) x\nchar i; void main() { i = pp(1,2); }", "#define pp(x , y) x+y\nchar i; void main() { i = pp(1,2); }", "#define pp(,x) x\nchar i; void main() { }",
+    "#define pp(x,,y) x\nchar i; void main() { }", "#define pp(x, y, x) x\nchar i; void main() { i = pp(1,2,3); }",
+    # macros that refer to themselves, directly, with growth, through each other
+    "#define A A\nA char i; void main() { }", "#define F(x) F(x)\nchar i; void main() { i = F(1); }", "#define A (A A)\nchar i; void main() { i = A; }",
+    "#define A B\n#define B A\nchar i; void main() { i = A; }", "#define F(x) G(x)\n#define G(x) F(x)\nchar i; void main() { i = F(1); }", "#define A A+1\n#if A\nchar i;\n#endif\nvoid main() { }",
+    # a function name or a register where a variable is required
+    "void f(); void main() { (f); }", "unsigned char a; void main() { a = sizeof X; a = sizeof(Y); }", "unsigned char a; void main() { a = *X; }", "char *p; void main() { p = &X; }",
+    "void f(); unsigned char a; void main() { a = f; }", "void f(); void main() { f++; --f; }", "void f(); unsigned char a; void main() { a = *f; a = sizeof(f); }", "void f(); char *p; void main() { p = &f; }",
+    "void f(); unsigned char a; void main() { a = a + f; if (f) a = 1; }", "void f(); unsigned char a[4]; void main() { a[f] = 1; X = a[f]; }", "void f(); void main() { strobe(f); strobe(X); }",
+    "void f(); void main() { X = (f >> 8) + 1; }", "void f(); void main() { X = (f >> 8) - 1; }", "void main() { X = (X >> 8) + 1; Y = (Y >> 8) - 1; }", "void f(); void main() { f = 1; f += 2; f <<= 1; }",
+    "void f(); void g(char x); void main() { g(f); g(X); }", "unsigned char a[4]; char f(char *s) { return s[0]; } void main() { X = a[\"s\"]; X = a[f(\"s\")]; }",
+    # infix ! and ~ in constant expressions
+    "const char tab[2] = {3 * 5 ! 4, 1}; void main() { }", "const char tab[2] = {3 ~ 4, 1}; void main() { }", "char t[2 ! 1]; void main() { }",
+]
+OWN_SEEDS = REPAIRED_PATHS + [
     "unsigned char a, b; void h() { a++; } char k() { return 7; } void main() { a = k(); h(); X = a; }",
     "unsigned char a; void w(char x) { a = x; } void main() { Y = w(3); }",
     "void f(); void main() { f(); }",
@@ -659,6 +690,11 @@ def det_programs(tier):
             progs.append("char *q; void pr(char *s) { }\nvoid main() { pr(%s); }\n" % lits[0] + "".join("void g%d() { pr(%s); pr(%s); }\n" % (i, lits[i], lits[(i + 1) % 5]) for i in range(k)))
             progs.append("char *q; void main() { %s }\n" % " ".join("q = %s;" % l for l in lits[:k]))
             progs.append("char *q; unsigned char a; void pr(char *s, char *t) { }\nvoid main() { if (a) pr(%s, %s); else pr(%s, %s); }\n" % (lits[0], lits[k - 1], lits[k - 1], lits[0]))
+        if k >= 2:
+            # several literals in the initialiser of a local variable, in a condition, in a return expression
+            progs.append("char pk(%s) { return p0[0]; }\nvoid main() { char v = pk(%s); X = v; }\n" % (args, call))
+            progs.append("char pk(%s) { return p0[0]; }\nunsigned char a; void main() { if (pk(%s)) a = 1; while (pk(%s)) a++; }\n" % (args, call, call))
+            progs.append("char pk(%s) { return p0[0]; }\nchar g() { return pk(%s); }\nvoid main() { X = g(); Y = pk(%s) + 1; }\n" % (args, call, call))
     for n in (3, 12, 40):
         decl = "".join("unsigned char v%d;\n" % i for i in range(n))
         fns = "".join("void f%d() { v%d++; }\n" % (i, i) for i in range(n))
